@@ -165,6 +165,13 @@ pub fn run(ctx: &'static Ctx) {
     for s in ["\u{c4}B0501", "P\u{d6}0501", "\u{df}P0A03", "\u{20ac}0501", "PN\u{e9}A03", "\u{e9}\u{e9}A03x", "PNP0A0\u{e9}", "PNP\u{e9}A03", "\u{1f600}501", "PNP0\u{20ac}"] {
         bad_ids.push(s.to_string());
     }
+    for extra in [256usize, 512, 65_536] {
+        for pad in ['0', 'A', 'F', ' '] {
+            let tail: String = std::iter::repeat(pad).take(extra).collect();
+            bad_ids.push(format!("PNP0A03{}", tail));
+            bad_ids.push(format!("{}PNP0A03", tail));
+        }
+    }
     for s in &bad_ids {
         bad += 1;
         ctx.tr(1);
@@ -257,6 +264,15 @@ pub fn run(ctx: &'static Ctx) {
             v[p] = c;
             let s: String = v.into_iter().collect();
             refuse(&s, "non-ascii-dash");
+        }
+    }
+    // wrong lengths that are right modulo 256 / 65536 (a length narrowed before it is compared): a valid identifier followed
+    // by 256, 512 or 65536 further characters
+    for extra in [256usize, 512, 65_536] {
+        for pad in ['0', 'f', '-', ' '] {
+            let tail: String = std::iter::repeat(pad).take(extra).collect();
+            refuse(&format!("{}{}", good, tail), "length-modulo");
+            refuse(&format!("{}{}", tail, good), "length-modulo");
         }
     }
     // a valid identifier followed or preceded by something: the whole string must be the identifier
